@@ -5,6 +5,7 @@ from .proto import *
 from . import gens_big as GB
 from . import gens_r2 as R2
 from . import gens_r3 as R3
+from . import gens_r4 as R4
 
 ERR_KINDS_SMALL = ["ER_NO", "ER_BAD_DB_ERROR", "ER_PARSE_ERROR", "ER_NO_SUCH_TABLE", "ER_DUP_ENTRY",
                    "ER_ACCESS_DENIED_ERROR", "ER_UNKNOWN_ERROR", "ER_LOCK_DEADLOCK"]
@@ -1756,3 +1757,14 @@ gen_C13 = _plus(gen_C13, R3.c13_extra, R3.c13_hs)
 gen_C17 = _plus(gen_C17, R3.c17_extra)
 gen_C18 = _plus(gen_C18, R3.c18_extra)
 gen_C19 = (lambda f: (lambda rng, tier, probe=None: f(rng, tier, probe) + R3.c19_flush_faults(probe)))(gen_C19)
+
+
+# fourth round of seeded defects
+gen_C02 = _plus(gen_C02, R4.c02_extra)
+gen_C09 = _plus(gen_C09, R4.c09_extra)
+gen_C11 = _plus(gen_C11, R4.c11_extra)
+gen_C12 = _plus(gen_C12, R4.c12_extra)
+gen_C14 = _plus(gen_C14, R4.c14_extra)
+gen_C15 = _plus(gen_C15, R4.c15_extra)
+gen_C16 = _plus(gen_C16, R4.c16_extra)
+gen_C20 = _plus(gen_C20, R4.c20_extra)
